@@ -29,11 +29,8 @@ def with_config(trace_path, features):
 
 def decode_sig(ev, d, sess):
     dec = next((e for e in sess if e.get("ev") == "Decode"), ev)
-    fr = dec.get("frame", [])
-    num = (fr[3] * 16 + fr[4] // 16) if len(fr) >= 8 else -1
     out = dec.get("out")
-    pan = dec.get("panic", "")
-    pan = re.sub(r"@.*", "", pan)[:60]
+    pan = re.sub(r"@.*", "", dec.get("panic", ""))[:60]
     if ev["ev"] == "Decode":
-        return "Decode n=%s tag=%s out=%s %s" % (num if out in ("panic",) else ("supported" if d.get("got") != "MsgNotSupported" else "unsupported"), dec.get("tag") if out == "panic" else "*", out, pan)
-    return "Decode n=%s: %s event rejected" % (num, ev["ev"])
+        return "Decode out=%s expected_class=%s %s" % (out, d.get("expected_class"), pan)
+    return "Decode: %s event rejected (ok=%s)" % (ev["ev"], ev.get("ok"))
